@@ -2,7 +2,7 @@
   C04 — the terminal state: a completed run is quiescent and everything ran
   exactly once.
 -/
-import TopsimProofs.FinishStr3
+import TopsimProofs.FinishStr4
 
 namespace Topsim
 namespace Sys
@@ -63,23 +63,41 @@ theorem C04_all_ingest_tasks_ran (s0 s : Sys) (hw : WFConfig s0) (h : ReachOk s0
 
 /-! ### (5) every workflow task ran — statement, and the part that is proved -/
 
-/-- (5), full strength (NOT proved in general; proved below when no tier move is made): in a
-finished run without crash, with positive ingest rates, every observation has a plan that has been
-emptied and every workflow task record of that observation is FINISHED and was started. -/
--- CORRECTED: `hb0` and `hsz0` added (the initial buffer holds no observation and no data).
--- `WFConfig` says nothing about `s0.buf`: an observation stored twice is planned twice (see (6)),
--- and a hot buffer that starts over-full (`cur > total`) or with recorded sizes breaks the
--- accounting that makes `is_finished()` imply "every observation was removed".
+/-- (5), full strength (proved below, `C04_all_workflow_tasks_ran`): in a finished run without
+crash, with positive ingest rates, every observation has a plan that has been emptied and every
+workflow task record of that observation is FINISHED and was started.  Tier moves included. -/
+-- CORRECTED: `hb0` and `hsz0` added (the initial buffer holds no observation and no data, and
+-- neither tier starts over-full).  `WFConfig` says nothing about `s0.buf`: an observation stored
+-- twice is planned twice (see (6)); and with a tier that starts over-full (`cur > total`) or with
+-- recorded sizes, `is_finished()` (free = capacity in both tiers) no longer implies that the data
+-- of every observation has been removed: e.g. `cold.cur = cold.total + 5` initially lets an
+-- observation of volume 5 sit in the cold tier with `cold.cur = cold.total` at the end.
 def C04_all_workflow_tasks_ran_statement : Prop :=
   ∀ (s0 s : Sys), WFConfig s0 →
     (s0.buf.hot.stored = [] ∧ s0.buf.hot.scheduled = [] ∧ s0.buf.hot.finished = [] ∧ s0.buf.cold.stored = []) →
-    (s0.buf.size = [] ∧ s0.buf.hot.cur ≤ s0.buf.hot.total) →
+    (s0.buf.size = [] ∧ s0.buf.hot.cur ≤ s0.buf.hot.total ∧ s0.buf.cold.cur ≤ s0.buf.cold.total) →
     ReachOk s0 s → s.isFinished = true → s.crashed = none →
     (∀ o ∈ s0.obs, 0 < o.rate) →
     ∀ o ∈ s.obs, ∃ p, s.plan? o.id = some p ∧ p.tasks = [] ∧
       ∀ r ∈ s.tasks, (∃ c n, r.id = .wf o.id c n) → r.status = .finished ∧ r.id ∈ s.starts
 
-/-- (5), partial: the statement above for runs in which no tier-move process (`move_hot_to_cold`,
+/-- (5) proved, tier moves included.  The two tiers together conserve space along every run that
+has not crashed (a tier-move step that does not raise takes from one tier what it gives to the
+other); `is_finished()` says both tiers are back at full free capacity, so no observation that
+has deposited data is still unremoved; the stream of a FINISHED observation has deposited data;
+hence every observation has been removed from the hot buffer, which `allocate_tasks` does only
+with an emptied plan.  (A run in which an observation stays in the cold tier for ever — known
+finding K1b — never reaches `is_finished()`; the statement says nothing about it.) -/
+theorem C04_all_workflow_tasks_ran : C04_all_workflow_tasks_ran_statement := by
+  intro s0 s hw hb0 hsz0 h hf hc hrate o ho
+  have hbuf : bufList s0.buf = [] := by
+    obtain ⟨h1, h2, h3, h4⟩ := hb0
+    simp [bufList, h1, h2, h3, h4]
+  exact removed_tasks_ran s0 s hw hbuf h hc o.id
+    (finished_all_removed2 s0 s hw hbuf hsz0 hrate h hf hc o ho)
+
+/-- (5), earlier partial (superseded by `C04_all_workflow_tasks_ran`; it does not need the bound on the
+initial cold tier): the statement above for runs in which no tier-move process (`move_hot_to_cold`,
 `move_cold_to_hot`) was ever created (`NoTier s`: the process table, which keeps ended processes,
 holds none).  In a finished run without crash, with positive ingest rates, every observation has a
 plan that has been emptied and every workflow task record of that observation is FINISHED and was
